@@ -281,7 +281,8 @@ def run(prog: Program, rep: Report, tier: str = "quick") -> None:
             attrs = {}
             for c in reversed(ci.mro):
                 for k, v in c.class_attrs.items():
-                    attrs[k] = canonical_expr_text(v, r)
+                    # a plain string literal (display label / model name) legitimately differs between the siblings
+                    attrs[k] = "<str>" if isinstance(v, ast.Constant) and isinstance(v.value, str) else canonical_expr_text(v, r)
             descr[r.short] = (
                 tuple(sorted(attrs.items())),
                 tuple(sorted(set(d for c in ci.mro for d in c.decorators))),
